@@ -122,6 +122,20 @@ func parseOracle(s *GSpec, w []int, out string) string {
 			}
 		}
 	}
+	if s.WithBounds {
+		// every reported bound is a token of the input, begin not after end (also on recovery paths)
+		for _, e := range evs[1:] {
+			if strings.HasPrefix(e, "B ") {
+				f := strings.Fields(e)
+				var b, en int
+				fmt.Sscan(f[len(f)-2], &b)
+				fmt.Sscan(f[len(f)-1], &en)
+				if b < 0 || en < 0 || b > en || en > len(w) {
+					return "C16: _onBounds called with bounds that are not tokens of the input: " + e
+				}
+			}
+		}
+	}
 	if s.WithBounds && !hasStarF(s) && !errorDelivered {
 		// C16: every user action with a non-empty span is followed by exactly one B with its first/last token
 		for i := 1; i < len(evs); i++ {
